@@ -19,6 +19,7 @@ EXPLANATION = (
     "item; (e) the type names accepted by the schema-string converter equal the keys of RE_TYPES, the generated regex is "
     "end-anchored and applied with re.match; (f) copy roles: export copies from job.path to a path beneath the target, "
     "import copies into job.path / job.fn(...) only, never overwriting (DestinationExistsError mapping, C04-b)."
+    " (i) The import / export loops carry nothing between entries; a loop that prunes os.walk's dirnames iterates the live top-down generator; archive member paths are decomposed by position, never by searching the text of another path."
 )
 UNDECIDED = ("The value-level round trip (ids, documents, file trees equal), archive member naming and formatted floats are not "
              "decided. Observed but not claimed: the schema-string converter drops literal text after the last field.")
